@@ -160,9 +160,15 @@ def partner_handler(req):
 
 def load(pe, req):
     kw = {"separator_insertion": req["sep_arg"]}
-    if req["fmt"] == "dobs":
-        return pe.input.dobs.read_dobs(req["path"], gz=req["gz"], **kw)
-    return pe.input.dobs.read_pobs(req["path"], gz=req["gz"], **kw)
+    fn = pe.input.dobs.read_dobs if req["fmt"] == "dobs" else pe.input.dobs.read_pobs
+    if req.get("full"):
+        # the same data must come back inside the dictionary of the full output
+        r = fn(req["path"], gz=req["gz"], full_output=True, **kw)
+        missing = [k for k in ("obsdata", "who", "date", "host", "description", "version", "program") if k not in r]
+        if missing:
+            raise KeyError("full_output lacks %r" % missing)
+        return r["obsdata"]
+    return fn(req["path"], gz=req["gz"], **kw)
 
 
 def adjusted_for_zero_samples(exp):
@@ -385,7 +391,7 @@ def do_export(ctx, pe, op, plan, d, clock, faults, files, partner):
     fired = bool(faults.last and faults.last.get("fired"))
     faults.last = None
     faults.armed = None
-    m = {"fmt": fmt, "path": path, "gz": op["gz"], "sep_arg": sarg}
+    m = {"fmt": fmt, "path": path, "gz": op["gz"], "sep_arg": sarg, "full": op["name"] % 2 == 1 and bool(op["symbol"])}
     if fault and fired:
         ctx.compared += 1
         if raised is None:
